@@ -240,6 +240,12 @@ def run(chk, n):
             for extra in ([A("bob"), A("admin")] + d, [A("bob"), A("editor")] + d):
                 ops = [(31,), (36, False), (1, 1, extra), (36, True)] + probe + [(32, k)] + probe
                 cases.append((rows, False, ops))
+        # ... and a SUCCESSFUL reload in that situation (the store delivers exactly the rules the model already lists; auto-build
+        # is on again): policy and role links are replaced TOGETHER, so the link that was never built exists afterwards
+        for extra in ([A("bob"), A("admin")] + d, [A("bob"), A("editor")] + d):
+            for mid in ([], [(3, 1, [A("alice"), A("admin")] + d)]):
+                ops = [(31,), (36, False), (1, 1, extra)] + mid + [(36, True)] + probe + [(31,)] + probe
+                cases.append((rows, False, ops))
         mgmt.run_cases(chk, kind, cases, spec_check, label=f"links-out-of-step-{kn}")
         chk.extra["strata"][f"links_out_of_step_{kn}"] = len(cases)
     # exhaustive failure points on one fixed policy
